@@ -113,7 +113,13 @@ class Ref:
                     self.soft += 1
                     self.set(op[1], d)
                     return ('ok', d)
-            if name in ('update_map', 'update_pairs', 'update_iter', 'update_kw', 'ior', 'update_mapkw', 'update_pairskw'):
+            if name in ('update_partial', 'update_badpair'):
+                # the source fails after these pairs: they have been assigned one by one, the exception reaches the caller
+                for k, v in op[1]:
+                    self.set(k, v)
+                return ('exc', 'SourceFailed' if name == 'update_partial' else 'ValueError')
+            if name in ('update_map', 'update_pairs', 'update_iter', 'update_kw', 'ior', 'update_mapkw', 'update_pairskw',
+                        'update_keysonly', 'update_dictsub'):
                 for k, v in op[1]:
                     self.set(k, v)
                 if name in ('update_mapkw', 'update_pairskw'):
@@ -153,6 +159,27 @@ class St:
         self.c = cls(max_size=max_size, on_miss=fn)
 
 
+class SourceFailed(Exception):
+    pass
+
+
+class KeysOnlyMapping:
+    """The minimal mapping protocol dict.update() accepts: keys() and __getitem__ (e.g. sqlite3.Row)."""
+
+    def __init__(self, pairs):
+        self._d = dict(pairs)
+
+    def keys(self):
+        return list(self._d)
+
+    def __getitem__(self, k):
+        return self._d[k]
+
+
+class DictSubclass(dict):
+    pass
+
+
 def impl_apply(c, op):
     name = op[0]
     try:
@@ -186,6 +213,18 @@ def impl_apply(c, op):
             return ('ok', c.update((), **dict(op[1])))
         if name == 'update_mapkw':
             return ('ok', c.update(dict(op[1]), **dict(op[2])))
+        if name == 'update_keysonly':
+            return ('ok', c.update(KeysOnlyMapping(op[1])))
+        if name == 'update_dictsub':
+            return ('ok', c.update(DictSubclass(op[1])))
+        if name == 'update_partial':
+            def failing():
+                for pair in op[1]:
+                    yield tuple(pair)
+                raise SourceFailed('the source of the update failed')
+            return ('ok', c.update(failing()))
+        if name == 'update_badpair':
+            return ('ok', c.update([tuple(pair) for pair in op[1]] + ['x']))
         if name == 'update_pairskw':
             return ('ok', c.update([tuple(p) for p in op[1]], **dict(op[2])))
         if name == 'update_self':
@@ -299,6 +338,13 @@ class Spec:
         # repeated as a keyword becomes the most recent one); a repeated key inside the pairs next to keywords
         m.append(('update_mapkw', ((first, 1), (K[1], 0)), ((first, 0),)))
         m.append(('update_pairskw', ((first, 1), (K[1], 0), (first, 0)), ((last, 1),)))
+        # further argument shapes: a mapping that offers only keys() and __getitem__, a dict subclass; sources that fail
+        # after some pairs (a generator that raises, a malformed pair) - also with more pairs than the cache holds
+        m.append(('update_keysonly', ((first, 1), (last, 0))))
+        m.append(('update_dictsub', ((K[1], 1), (first, 0))))
+        m.append(('update_partial', ((last, 1),)))
+        m.append(('update_partial', tuple((k, 0) for k in K)))
+        m.append(('update_badpair', tuple((k, 1) for k in reversed(K))))
         m.append(('update_self',))
         m.append(('ior', ((first, 1),)))
         m.append(('ior', ((last, 0), (K[1], 0))))
